@@ -121,10 +121,24 @@ func Verif_C04_ArchStructure() {
 			sc.Info.ArchLinux.Scripts.PostUpgrade = p
 		}
 	}
+	// a top-level name that sorts before ".PKGINFO" (pacman's own .CHANGELOG, "+extras", "-"...)
+	early := v.NondetChoice("early.toplevel.name", 4)
+	if early > 0 {
+		name := []string{"", "/.CHANGELOG", "/+x", "/-"}[early]
+		src := models.AddFile("/src/early", []byte("e"), 0o644, time.Unix(1500000000, 0).UTC())
+		sc.Info.Contents = append(sc.Info.Contents, &files.Content{Source: src, Destination: name})
+		sc.Wants = append([]scen.Want{{Path: name, Kind: 'f', Type: files.TypeFile}}, sc.Wants...)
+	}
 	es, ok := verifBuild(sc)
 	v.Reach("C04.arch.ran")
 	if !ok {
 		return
+	}
+	if text, okm := verifMtree(es); okm {
+		lines := v.Lines(text)
+		v.Assert(len(lines) >= 2 && lines[0] == "#mtree" && v.HasPrefix(lines[1], "./.PKGINFO "), "arch-mtree-lists-pkginfo-first")
+	} else {
+		v.Assert(false, "arch-mtree-is-a-gzip-member")
 	}
 	n := len(sc.ForFormat("archlinux"))
 	wantLen := n + 2
@@ -189,7 +203,7 @@ var verifArchSlots = []string{"post_install", "post_remove", "post_upgrade", "pr
 // Verif_C09_ArchScripts: .INSTALL is the concatenation, in sorted order, of one
 // shell function per configured event wrapping the script bytes verbatim.
 func Verif_C09_ArchScripts() {
-	sc := scen.Payload(scen.Options{})
+	sc := scen.Payload(scen.Options{UmaskChoice: true})
 	mt := time.Unix(1500000000, 0).UTC()
 	var body [6][]byte
 	var set [6]bool
